@@ -70,7 +70,7 @@ def gen_case(seed: int, prop: str, tier: str) -> dict:
         else:
             ops.append(["flip"])
     cfg = {"seq0": rng.choice([1, 3, 7, 1000, 65000]), "max_tables": rng.choice([1, 2, 4, 12]), "gaps": rng.random() < 0.3,
-           "scatter_obj": rng.random() < 0.4, "free_obj": rng.random() < 0.5, "second_objtable": rng.random() < 0.3, "reuse": rng.random() < 0.5,
+           "scatter_obj": rng.random() < 0.4, "free_obj": rng.random() < 0.5, "second_objtable": rng.random() < 0.3, "reuse": rng.random() < 0.5, "stale_gap": rng.choice([1, 1, 1, 0x7FFF, 0x8000, 0x9000, 64999]),
            "stale_version": rng.choice([0x400, 0x400, 0x300, 0]), "stale_sig": rng.choice([W.SIG_HEADER, W.SIG_HEADER, 0, 0xDEADBEEF]),
            "store_seed": rng.getrandbits(40)}
     return {"engine": "storesim", "prop": prop, "seed": seed, "cfg": cfg, "ops": ops, "cuts": rng.choice(["all", "all", "final", "sample"]),
